@@ -361,6 +361,19 @@ end
 
 /-! ## the specification: one top-down fold in document order -/
 
+/-- `hasattr(el, "_get_context")` for the object that `t` constructs -/
+def Tree.hasGet : Tree → Bool
+  | .leaf (.set ..) => true
+  | .leaf _ => false
+  | .seq .. => true
+  | .split _ => true
+
+/-- `hasattr(el, "_set_context")` -/
+def Tree.hasSet : Tree → Bool
+  | .leaf .data => false
+  | .leaf .src => false
+  | _ => true
+
 /-- what a leaf element contributes to the context of its sequence -/
 def foldElem (n : Nat) : Elem → Ctx → Except Nat Ctx
   | .set k ks v, c => fmtUpdate n k ks v c
@@ -382,15 +395,19 @@ def foldL (n : Nat) : List Tree → Ctx → Except Nat Ctx
     match fold n t c with
     | .error e => .error e
     | .ok c' => foldL n ts c'
+/-- the contexts exported by the branches of a `Split`, each started from `c`; a branch without
+`_get_context` is transparent ("not intersecting the others with {}", split.py 111-113) -/
 def foldB (n : Nat) : List Tree → Ctx → Except Nat (List Ctx)
   | [], _ => .ok []
   | b :: bs, c =>
-    match fold n b c with
-    | .error e => .error e
-    | .ok x =>
-      match foldB n bs c with
+    if b.hasGet then
+      match fold n b c with
       | .error e => .error e
-      | .ok xs => .ok (x :: xs)
+      | .ok x =>
+        match foldB n bs c with
+        | .error e => .error e
+        | .ok xs => .ok (x :: xs)
+    else foldB n bs c
 end
 
 end Lena.C13
